@@ -154,7 +154,7 @@ def _shift_equivariant(fn_name, weighted=False, tol=1e-6):
             if np.isnan(m) and np.isnan(m2):
                 continue
             scale = max(1.0, abs(c), float(np.nanmax(np.abs(old["a"]))))
-            if abs((m2 - c) - m) > tol * scale:
+            if not abs((m2 - c) - m) <= tol * scale:
                 if fn_name == "modal_location":
                     # two density peaks of exactly equal height (symmetric data): which one argmax picks is
                     # floating-point noise, not a property of the estimator over the reals
@@ -274,11 +274,11 @@ def _scale_checks(fn_name, ref=None, shift_invariant=True, weighted=False):
         if shift_invariant:
             for c in (1.0, -7.25):
                 s2 = run(a + c)
-                if not (np.isnan(s) and np.isnan(s2)) and abs(s2 - s) > 1e-6 * max(mag, abs(c)):
+                if not (np.isnan(s) and np.isnan(s2)) and not abs(s2 - s) <= 1e-6 * max(mag, abs(c)):
                     return "adding %r changes the scale from %r to %r" % (c, s, s2)
         for k in (2.0, 0.5, 10.0):
             s2 = run(a * k)
-            if not (np.isnan(s) and np.isnan(s2)) and abs(s2 - k * s) > 1e-6 * max(mag * k, 1.0) + 2e-3 * (not shift_invariant):
+            if not (np.isnan(s) and np.isnan(s2)) and not abs(s2 - k * s) <= 1e-6 * max(mag * k, 1.0) + 2e-3 * (not shift_invariant):
                 return "multiplying by %r changes the scale from %r to %r (expected %r)" % (k, s, s2, k * s)
 
     def formula(args, s, old):
@@ -287,7 +287,7 @@ def _scale_checks(fn_name, ref=None, shift_invariant=True, weighted=False):
         if len(a) < 2:
             return None
         r = ref(a)
-        if abs(r - s) > 1e-7 * max(1.0, abs(r)):
+        if not abs(r - s) <= 1e-7 * max(1.0, abs(r)):
             return "differs from the independent implementation of the published formula: %r vs %r" % (s, r)
     out = [("non_negative", nonneg), ("zero_on_constant", zero_const)]
     if shift_invariant:
@@ -336,7 +336,7 @@ def _wformula(ref):
     def chk(args, s, old):
         a, w = old["a"], old["w"]
         r = ref(a, w)
-        if abs(r - s) > 1e-7 * max(1.0, abs(r)):
+        if not abs(r - s) <= 1e-7 * max(1.0, abs(r)):
             return "differs from the independent implementation: %r vs %r" % (s, r)
     return chk
 
@@ -424,7 +424,7 @@ def _smooth_checks(in_range, const_exact=True):
         x = old["x"]
         if np.all(x == x[0]):
             y = np.asarray(y, dtype=float)
-            if np.abs(y - x[0]).max() > 1e-9 * max(1.0, abs(x[0])):
+            if not np.abs(y - x[0]).max() <= 1e-9 * max(1.0, abs(x[0])):
                 return "constant signal %r not reproduced: %r" % (x[0], y.tolist()[:6])
 
     def rng_(args, y, old):
